@@ -972,4 +972,60 @@ end Encoder
 
 end C03
 
+-- ====================================================================== non-vacuity
+namespace Ex
+open TLX.Spec.Containers TLX.Spec.FrameBuild TLX.Props.C12
+
+/-- two item lists that are alike up to their tags: a DSB and a TCP segment numbered 1 resp. 7, tables that agree -/
+def pk (tag : Nat) : Pkt := ⟨.tcp, ⟨[10, 0, 0, 1], 50000⟩, ⟨[10, 0, 0, 2], 443⟩, [0x16, 3, 3], true, tag⟩
+def tbl (tag : Nat) : Nat → Pipeline.Info := fun t => if t = tag then ⟨1000, 5, [1, 2, 3, 4, 5, 6], [7, 8, 9, 10, 11, 12], false⟩ else default
+
+theorem alike_instance (mask : Quic.Dissect.MaskFn) (H : Crypto.Prims) (P : Cipher.Prims) (prior : Export.Prior)
+    (args : Args) (fk : Option (List Keylog.Key)) (k : List Keylog.Key) :
+    framesFrom mask H P prior args fk [.dsb k, .frame (pk 1)] (tbl 1) =
+      framesFrom mask H P prior args fk [.dsb k, .frame (pk 7)] (tbl 7) :=
+  framesFrom_alike mask H P (tbl 1) (tbl 7) prior args fk
+    (Zip.cons rfl (Zip.cons ⟨rfl, by simp [tbl, pk]⟩ Zip.nil))
+
+/-- a libpcap (nanosecond) capture of two TCP segments to port 443: the first with checksum field 0 (wrong), the second
+    with the right checksum -/
+def nano : Variant := .legacy { nano := true }
+def evs2 : List Ev := [.pkt 1500000000 (ExportInputs.Ex.seg 0).encode, .pkt 2500000000 (ExportInputs.Ex.seg 0x9200).encode]
+
+/-- the `-c` run rejects exactly the first event -/
+theorem evKept_instance : evs2.map (evKept nano) = [false, true] := by decide +kernel
+
+theorem evs2_wf : nano.WF evs2 ∧ nano.WF (evs2.filter (evKept nano)) := by
+  constructor
+  · refine ⟨by decide, by decide, by decide, by decide, by decide, ?_⟩
+    simp only [evs2, LegacyVariant.WFfrom, LegacyVariant.unitsPerSecond]
+    decide +kernel
+  · have : evs2.filter (evKept nano) = [.pkt 2500000000 (ExportInputs.Ex.seg 0x9200).encode] := by decide +kernel
+    rw [this]
+    refine ⟨by decide, by decide, by decide, by decide, by decide, ?_⟩
+    simp only [LegacyVariant.WFfrom, LegacyVariant.unitsPerSecond]
+    decide +kernel
+
+theorem evs2_read : ∃ X IS, Ingest.go Keylog.srcHexClass true 0 (evs2.filterMap (scale nano)) = .ok (X, IS) := by
+  have h : (match Ingest.go Keylog.srcHexClass true 0 (evs2.filterMap (scale nano)) with
+      | .ok _ => true
+      | .error _ => false) = true := by decide +kernel
+  cases hg : Ingest.go Keylog.srcHexClass true 0 (evs2.filterMap (scale nano)) with
+  | ok v => exact ⟨v.1, v.2, rfl⟩
+  | error e => rw [hg] at h; cases h
+
+/-- non-vacuity of `export_checksum_filter_file`: every hypothesis holds for this capture, so the run with `-c` on the
+    two-packet file equals the run without `-c` on the file that holds the second packet only -/
+theorem checksum_filter_file_instance (mask : Quic.Dissect.MaskFn) (H : Crypto.Prims) (P : Cipher.Prims) (args : Args)
+    (kl : Option Keylog.Str) :
+    exportFile mask H P (argsC args true) true kl (encode nano evs2) =
+      exportFile mask H P (argsC args false) true kl
+        (encode nano [.pkt 2500000000 (ExportInputs.Ex.seg 0x9200).encode]) := by
+  have := export_checksum_filter_file mask H P args kl nano evs2 evs2_wf.1 evs2_wf.2 evs2_read
+  have e : evs2.filter (evKept nano) = [.pkt 2500000000 (ExportInputs.Ex.seg 0x9200).encode] := by decide +kernel
+  rw [e] at this
+  exact this
+
+end Ex
+
 end TLX.Props.ExportInputs2
